@@ -55,6 +55,10 @@ def cases(tier, seed):
         if tier != 'quick':
             for ov in itertools.product(OUTCOMES, repeat=3):
                 out.append({'k': 3, 'ov': list(ov), 'mode': mode, 'bound': 1})
+    # backlog: the application thread hands over N snapshots before any worker gets to run (N pending at once), then flushes;
+    # non-preemptive schedules only (the first one is 'all N pushes, then the workers'), capped
+    for n in ((4, 8, 9, 16, 17, 33) if tier == 'quick' else (4, 8, 9, 16, 17, 33, 64, 65, 129)):
+        out.append({'k': n, 'ov': ['ok'] * (n - 1) + ['exc'], 'mode': 'A', 'bound': 0, 'cap': 300 if tier == 'quick' else 3000})
     return out
 
 
@@ -252,4 +256,4 @@ def run_case(ctx, desc):
         if not desc.get('shard') or desc['shard'][0] == 0:
             if not S.guard(ctx, 'C09', make, lambda s, st: (s.log, s.deadlock), dict(desc)):
                 return
-        S.explore(make, desc['bound'], ctx, oracle(ctx, desc), max_execs=400000, shard=desc.get('shard'), name=str(desc))
+        S.explore(make, desc['bound'], ctx, oracle(ctx, desc), max_execs=desc.get('cap', 400000), shard=desc.get('shard'), name=str(desc)[:80])
